@@ -902,6 +902,16 @@ class TreeTransform(Generic[TreeFnT]):
     agg_only = mode == RunnerMode.AGGREGATE
     if agg_only:
       transforms = [t for t in transforms if t.agg_fns]
+    if (
+        shard is not None
+        and not agg_only
+        and all(t.data_source_ is None for t in transforms)
+    ):
+      # Without this every shard would silently process the complete inputs.
+      raise TypeError(
+          f'Data source is not configurable but {shard=} is provided: no stage'
+          ' has a data source.'
+      )
     runners = []
     for transform in transforms:
       runner = TransformRunner.from_transform(
